@@ -975,7 +975,9 @@ pub async fn start_replication_supervisor(
                             );
                             guards.push(guard);
                         } else {
-                            panic!("Re-adding a secoundary that alrady exists!!!")
+                            // A second join of a known member (two nodes starting together
+                            // join each other) must not kill the supervisor of this node
+                            log::warn!("Ignoring the join of {}, it is already a member", name);
                         }
                     }
 
